@@ -1947,8 +1947,10 @@ class Cluster(object):
                 future = session.add_or_renew_pool(host, is_host_addition=False)
                 if future is not None:
                     have_future = True
-                    future.add_done_callback(callback)
+                    # register the future before its callback: the callback drops it from the set,
+                    # and it may run at once, or on another thread before the next line
                     futures.add(future)
+                    future.add_done_callback(callback)
         except Exception:
             log.exception("Unexpected failure handling node %s being marked up:", host)
             for future in futures:
